@@ -3,7 +3,7 @@
    hold for nested values as well as for the enclosing message (nesting is parsing with a suffix). *)
 From Coq Require Import ZArith List Bool.
 From CP Require Import Core.Bytes Core.Result Prim.Int Prim.Mpint Prim.Timestamp Base.Enum Frame.LVFrame Frame.Units.
-From CP Require Import Lemmas.IntLemmas Lemmas.MpintLemmas Lemmas.TimestampLemmas Lemmas.EnumLemmas Lemmas.EnumTables Lemmas.UnitLemmas Lemmas.UnitInstances.
+From CP Require Import Lemmas.IntLemmas Lemmas.MpintLemmas Lemmas.MpintNegLemmas Lemmas.TimestampLemmas Lemmas.EnumLemmas Lemmas.EnumTables Lemmas.UnitLemmas Lemmas.UnitInstances.
 From CPGen Require Import Tables.
 Open Scope Z_scope.
 
@@ -17,6 +17,10 @@ Proof. exact parse_compose_mpint. Qed.
 Theorem C01_ssh_mpint : forall z b s, 0 <= z -> zlen (ssh_payload z) < 4294967296 ->
   compose_ssh_mpint z = Ok b -> parse_ssh_mpint (b ++ s) 0 = Ok (z, zlen b).
 Proof. exact parse_compose_ssh_mpint. Qed.
+
+Theorem C01_ssh_mpint_negative : forall z b s, z < 0 -> neg_width z < 4294967296 ->
+  compose_ssh_mpint z = Ok b -> parse_ssh_mpint (b ++ s) 0 = Ok (z, zlen b).
+Proof. exact parse_compose_ssh_mpint_neg. Qed.
 
 (* every member of every generated factory (any table without duplicate codes, any supported width) *)
 Theorem C01_enum_member : forall tbl w, In w widths -> Forall (fun c => 0 <= c < 256 ^ w) tbl -> forall i c s, NoDup tbl ->
